@@ -23,6 +23,9 @@ Inductive mapping :=
 | MDict of seq (nat * nat)
 | MSeq of seq nat.
 
+(* {k: k for k in mapping}: a repeated key is stored once, at the position of its first occurrence *)
+Definition first_occurrences (ks : seq nat) : seq nat := rev (undup (rev ks)).
+
 (* __init__ up to the parse calls: the (input key, output key) pairs in matching order *)
 Definition normalise (has_output_vocab : bool) (n_input_keys : nat) (m : mapping)
     : result (seq (nat * nat)) :=
@@ -33,7 +36,7 @@ Definition normalise (has_output_vocab : bool) (n_input_keys : nat) (m : mapping
       if n_input_keys == 0%N then Err ValidationError
       else Ok [seq (k, k) | k <- iota 0 n_input_keys]
   | MDict ps => if ps is [::] then Err ValidationError else Ok ps
-  | MSeq ks => if ks is [::] then Err ValidationError else Ok [seq (k, k) | k <- ks]
+  | MSeq ks => if ks is [::] then Err ValidationError else Ok [seq (k, k) | k <- first_occurrences ks]
   end.
 
 Section Mem.
